@@ -138,8 +138,9 @@ def sweep(fn: typing.Callable, args: typing.Iterable, budget_s: float, per_item_
         finally:
             for fut in pending:
                 fut.cancel()
+            procs = list((getattr(pool, '_processes', None) or {}).values())
             pool.shutdown(wait=False, cancel_futures=True)
-            for proc in list(getattr(pool, '_processes', {}).values()):
+            for proc in procs if pending else []:
                 try:
                     proc.kill()
                 except Exception:  # pylint: disable=broad-except
